@@ -1097,6 +1097,34 @@ func auparseFamily(ctx *Ctx) error {
 				}
 			}
 		}
+		// sizes a generated line does not reach by chance
+		for _, n := range []int{255, 256, 257, 1023, 1024, 1025, 4095, 4096, 4097, 65536} {
+			for _, shape := range []int{0, 1, 2, 3} {
+				h := &AHdr{Typ: 1300, Sec: 1500000000, Ms: 7, Seq: 4242, Name: "SYSCALL"}
+				var line string
+				switch shape {
+				case 0: // long body
+					h.Body = "a=" + strings.Repeat("v", n) + " msg=audit(1.000:1): x"
+					line = fmt.Sprintf("type=%s msg=audit(%d.%03d:%d): %s", h.Name, h.Sec, h.Ms, h.Seq, h.Body)
+				case 1: // long padding after msg=, short body
+					h.Body = "a=b"
+					line = fmt.Sprintf("type=%s msg=%saudit(%d.%03d:%d): %s", h.Name, strings.Repeat(" ", n), h.Sec, h.Ms, h.Seq, h.Body)
+				case 2: // long trailing white space
+					h.Body = "a=b"
+					line = fmt.Sprintf("type=%s msg=audit(%d.%03d:%d): %s%s", h.Name, h.Sec, h.Ms, h.Seq, h.Body, strings.Repeat(" \t", n/2))
+				case 3: // many fields
+					var b strings.Builder
+					for i := 0; i < n && i < 5000; i++ {
+						fmt.Fprintf(&b, "k%d=%d ", i, i)
+					}
+					h.Body = strings.TrimSpace(b.String())
+					line = fmt.Sprintf("type=%s msg=audit(%d.%03d:%d): %s", h.Name, h.Sec, h.Ms, h.Seq, h.Body)
+				}
+				c := mkACase("line", 0, line)
+				c.Hdr = h
+				run(c, n <= 4097, true, "size-ladder")
+			}
+		}
 	case "C12":
 		res.Rule = "records rendered the way the kernel writes them (safe strings quoted, unsafe ones upper-case hex, sockaddr as hex of struct sockaddr) for SYSCALL, PATH, CWD, EXECVE, SOCKADDR (IPv4/IPv6/unix), PROCTITLE, USER_CMD, TTY/USER_TTY, USER_LOGIN and other types, values over all bytes 0x01-0xFF with quotes, '=', spaces, backslashes placed at start/middle/end (inside the property's domain), every arch/syscall/errno table entry; Data() compared with the generator's plaintext and with the model. Non-trivial = every generated record (each has at least one encoded field); distinct by input bytes."
 		// exhaustive over the tables first: every (arch, syscall), every errno
@@ -1126,6 +1154,41 @@ func auparseFamily(ctx *Ctx) error {
 			c := mkACase("data", 1300, fmt.Sprintf("audit(1.000:1): arch=c000003e syscall=1 success=no exit=-%d exe=\"/x\"", n))
 			c.Expect = map[string]string{"exit": name, "result": "fail"}
 			run(c, true, true, "table:errno")
+		}
+		// sizes a generated record does not reach by chance
+		for _, n := range []int{255, 256, 257, 1023, 1024, 1025, 4095, 4096, 4097} {
+			v := strings.Repeat("p", n-1) + "q"
+			un := "two words " + strings.Repeat("\xe9", n)
+			nul := strings.Repeat("a", n/2) + "\x00" + strings.Repeat("b", n/2)
+			c := mkACase("data", 1300, fmt.Sprintf("audit(1.000:1): arch=c000003e syscall=2 success=yes exit=0 exe=%q cwd=%s", v, hexUp([]byte(un))))
+			c.Expect = map[string]string{"exe": v, "cwd": un, "syscall": "open"}
+			run(c, true, true, "size-ladder")
+			c = mkACase("data", 1327, "audit(1.000:1): proctitle="+hexUp([]byte(nul)))
+			c.Expect = map[string]string{"proctitle": nulToSpace(nul)}
+			run(c, true, true, "size-ladder")
+			c = mkACase("data", 1123, fmt.Sprintf("audit(1.000:1): pid=1 uid=0 auid=0 ses=1 msg='cwd=%s cmd=%s terminal=pts/0 res=success'", hexUp([]byte(un)), hexUp([]byte(un+"x"))))
+			c.Expect = map[string]string{"cwd": un, "cmd": un + "x"}
+			run(c, true, true, "size-ladder")
+			c = mkACase("data", 1306, "audit(1.000:1): saddr=0100"+hexUp([]byte("/"+strings.Repeat("s", n%100+1)))+"00")
+			c.Expect = map[string]string{"family": "unix", "path": "/" + strings.Repeat("s", n%100+1)}
+			run(c, true, true, "size-ladder")
+			if n <= 1025 {
+				var b strings.Builder
+				exp := map[string]string{"argc": strconv.Itoa(n)}
+				fmt.Fprintf(&b, "audit(1.000:1): argc=%d", n)
+				for i := 0; i < n; i++ {
+					if i%3 == 0 {
+						fmt.Fprintf(&b, " a%d=%s", i, hexUp([]byte(fmt.Sprintf("arg %d", i))))
+						exp[fmt.Sprintf("a%d", i)] = fmt.Sprintf("arg %d", i)
+					} else {
+						fmt.Fprintf(&b, " a%d=\"x%d\"", i, i)
+						exp[fmt.Sprintf("a%d", i)] = fmt.Sprintf("x%d", i)
+					}
+				}
+				c = mkACase("data", 1309, b.String())
+				c.Expect = exp
+				run(c, true, true, "size-ladder")
+			}
 		}
 		n := ctx.N(40000, 800000)
 		for i := 0; i < n && res.NumViolations() < 5; i++ {
@@ -1257,6 +1320,37 @@ func auparseFamily(ctx *Ctx) error {
 					}
 				}
 				rec3(pre, 0)
+			}
+		}
+		// sizes a generated record does not reach by chance: values, field counts and argument counts at and
+		// around 255 / 256, 1024, 4096 (thorough: 65536)
+		{
+			ladder := []int{255, 256, 257, 1023, 1024, 1025, 4095, 4096, 4097}
+			if ctx.Thorough() {
+				ladder = append(ladder, 65535, 65536, 65537)
+			}
+			for _, n := range ladder {
+				v := strings.Repeat("v", n)
+				hx := strings.Repeat("41", n)
+				var many, args strings.Builder
+				fmt.Fprintf(&args, "argc=%d", n)
+				for i := 0; i < n && i < 5000; i++ {
+					fmt.Fprintf(&many, " k%d=%d", i, i)
+					fmt.Fprintf(&args, " a%d=%d", i, i)
+				}
+				for _, rec := range []struct {
+					typ  int
+					body string
+				}{
+					{1300, "a=" + v + " b=1"}, {1300, "exe=\"" + v + "\" b=1"}, {1327, "proctitle=" + hx}, {1300, "exe=" + hx + " key=" + hx},
+					{1300, "arch=c000003e syscall=2" + many.String()}, {1309, args.String()}, {1307, "cwd=\"" + v + "\""}, {1306, "saddr=0100" + hx},
+					{1123, "cwd=" + hx + " cmd=" + hx + " terminal=x res=success"}, {1300, v + "=1 a=b"}, {1400, "avc:  denied  { " + strings.Repeat("read ", n/5) + "} for  pid=1"},
+				} {
+					run(mkACase("data", rec.typ, "audit(1.000:1): "+rec.body), true, true, "size-ladder")
+				}
+				run(mkACase("line", 0, "type=SYSCALL msg=audit(1.000:1): a="+v), true, true, "size-ladder")
+				run(mkACase("line", 0, "type="+strings.Repeat("X", n)+" msg=audit(1.000:1): a=b"), true, true, "size-ladder")
+				run(mkACase("line", 0, "type=SYSCALL msg="+strings.Repeat(" ", n)+"audit(1.000:1): a=b"), true, true, "size-ladder")
 			}
 		}
 		// fixed lines under every record type
